@@ -318,6 +318,7 @@ type Scheduler struct {
 	Steps, Choices2plus, MaxRunnable, Advances, StallsFired, BlockedParks int
 	hashState uint64
 	rec       []int
+	selectSeed uint64
 	Hung      bool
 	HungWhy   string
 }
@@ -368,6 +369,8 @@ func NewScheduler(cfg Config) *Scheduler {
 		cfg.Horizon = 3000
 	}
 	s := &Scheduler{cfg: cfg, rng: NewRand(SubSeed(cfg.Seed, "sched")), starved: map[*Tok]bool{}, changeAt: map[int]bool{}, stallAt: map[int]int64{}}
+	s.selectSeed = SubSeed(cfg.Seed, "select")
+	runtime.VerifSelectSeed = s.selectSeed | 1
 	prng := NewRand(SubSeed(cfg.Seed, "policy"))
 	if s.cfg.Policy == "" {
 		s.cfg.Policy = []string{"random", "random", "pct", "pct", "fifo", "starve"}[prng.Intn(6)]
@@ -488,6 +491,8 @@ func (s *Scheduler) Run() {
 		k := s.choose(run)
 		t := run[k]
 		s.tracef("C %d %d %d %s %s\n", s.step, k, len(run), t.site, t.id)
+		// the choice among several ready select cases made during this step (see tools/instr: runtime overlay)
+		runtime.VerifSelectSeed = (s.selectSeed + uint64(s.step)*0x9e3779b97f4a7c15) | 1
 		if s.cfg.Record {
 			s.rec = append(s.rec, k)
 		}
